@@ -125,6 +125,14 @@ impl<'m> IrConv<'m> {
                     // e.g. `float min(float, int)`: a mixed signature has no single operand type
                     return unsup("IntrinsicMixedParams");
                 }
+                // the IR's declared result type must be the one both evaluators (and `Ast.builtinRet` of the Lean model, hypothesis
+                // of `Ir.typeOf`) read for the HLSL built-in of that name.  rssl declares `M firstbithigh(M)` / `M firstbitlow(M)`
+                // also for int (result int); the evaluators read them as uint for every integer operand (DXC's table), the
+                // documentation says "same as the operand".  Which one HLSL means cannot be decided here: outside the modelled
+                // subset, counted (reached through `firstbitlow(max(2u, x))`: max / min / clamp have no uint overload in rssl).
+                if T::parse(tys[0].atom()).map(|t0| builtin_ret(&name, t0)) != Some(ret) {
+                    return unsup("IntrinsicRetReading");
+                }
                 hist.add(&format!("intr:{}", name));
                 let mut v = vec![a(&name), a(ret.name()), l(tys)];
                 for x in args {
